@@ -9,7 +9,12 @@
   "every continuation behaves identically" immediate. Instance tags: `verifyInstanceTags_foreign`
   (Props.C15): messages for another instance change nothing. Version: `checkVersion_committed`:
   with a committed version a message of another version changes nothing.
-  NOT covered by theorems: rejected AKE messages (they legitimately re-initialise the AKE context;
+  AKE messages (repaired code): `retransmitAfterCompletedExchange_skip(_run)`: the retransmission step is
+  skipped entirely for a rejected or ignored message; `processAKE_pending_kept`: a rejected AKE
+  message (and any outside the two finishing combinations) leaves the resend state exactly as it
+  was; `processAKE_strict_nonfinishing`: outside the finishing combinations message state, peer key,
+  the whole key context, session id and role flag of an encrypted session are unchanged.
+  NOT covered by theorems: the AKE context itself under rejected AKE messages (they legitimately re-initialise it;
   behavioural equivalence is decided by the twin-run oracle of the `reject` profile: the same genuine
   traffic is run with and without the rejected message and all plaintexts, errors, events and
   IsEncrypted values are compared). KNOWN FINDING: before any version is committed, a rejected
@@ -18,6 +23,8 @@
 
 import Proofs.ConvData
 import Proofs.ConvLife
+import Proofs.AkeGuard
+import Proofs.Fixes2
 namespace Otr.C06
 open Otr
 
@@ -38,5 +45,17 @@ theorem c05_immediate_replay_rejected : type_of% @Otr.c05_immediate_replay_rejec
 theorem verifyInstanceTags_foreign : type_of% @Otr.verifyInstanceTags_foreign := @Otr.verifyInstanceTags_foreign
 
 theorem checkVersion_committed : type_of% @Otr.checkVersion_committed := @Otr.checkVersion_committed
+
+/-- repaired code: a rejected or ignored AKE message triggers no retransmission -/
+theorem retransmitAfterCompletedExchange_skip : type_of% @Otr.retransmitAfterCompletedExchange_skip := @Otr.retransmitAfterCompletedExchange_skip
+
+/-- the same as a run: result `[]`, state untouched -/
+theorem retransmitAfterCompletedExchange_skip_run : type_of% @Otr.retransmitAfterCompletedExchange_skip_run := @Otr.retransmitAfterCompletedExchange_skip_run
+
+/-- repaired code: a rejected AKE message does not consume what waits for retransmission -/
+theorem processAKE_pending_kept : type_of% @Otr.processAKE_pending_kept := @Otr.processAKE_pending_kept
+
+/-- repaired code: outside the two finishing combinations the whole key context is unchanged, whatever is queued -/
+theorem processAKE_strict_nonfinishing : type_of% @Otr.processAKE_strict_nonfinishing := @Otr.processAKE_strict_nonfinishing
 
 end Otr.C06
